@@ -199,6 +199,36 @@ func runC14(c *Ctx) {
 				}
 			}
 		}
+		// public points whose x is not below the group order n (n < p on all three curves, so the values
+		// n, n+1, ... and p-1, p-2, ... are field elements like any other; about half of them are the x of
+		// two points). No private key is known for them: public half only.
+		for _, start := range []struct {
+			from *big.Int
+			step int64
+			tag  string
+		}{{new(big.Int).Set(n), 1, "x>=n"}, {new(big.Int).Sub(p.P, big.NewInt(1)), -1, "x-near-p"}} {
+			x := start.from
+			for found := 0; found < 3; x = new(big.Int).Add(x, big.NewInt(start.step)) {
+				if x.Cmp(n) < 0 || x.Cmp(p.P) >= 0 {
+					break
+				}
+				y2 := new(big.Int).Exp(x, big.NewInt(3), p.P)
+				y2.Sub(y2, new(big.Int).Mul(x, big.NewInt(3)))
+				y2.Add(y2, p.B).Mod(y2, p.P)
+				y := new(big.Int).ModSqrt(y2, p.P)
+				if y == nil {
+					continue
+				}
+				for _, yy := range []*big.Int{y, new(big.Int).Sub(p.P, y)} {
+					pub := &ecdsa.PublicKey{Curve: cv, X: new(big.Int).Set(x), Y: yy}
+					if cv.IsOnCurve(pub.X, pub.Y) {
+						rec.Event("forced-class:" + name + "/" + start.tag)
+						keys = append(keys, c14key{nil, pub, start.tag + "/" + c14classOf(pub, nil)})
+					}
+				}
+				found++
+			}
+		}
 	}
 	rec.Extra("ec_keys", len(keys))
 
@@ -221,6 +251,7 @@ func runC14(c *Ctx) {
 	for _, cv := range curves {
 		rec.Require("forced-class:"+cv.Params().Name+"/x-zeros-1", 1)
 		rec.Require("forced-class:"+cv.Params().Name+"/y-zeros-1", 1)
+		rec.Require("forced-class:"+cv.Params().Name+"/x>=n", 1)
 	}
 	rec.RequireClasses(40)
 }
